@@ -1639,4 +1639,27 @@ example : (sendPgn {} {} 1000 0 208 0x90 6 0x80 (List.replicate 130 7) 0 3).2 = 
   · simp [Sched]
   · simp [Due, Const.Default.bam_interval_22]
 
+section SessionKeys
+open J1939.Bits
+
+/-- the J1939-22 session key in arithmetic form -/
+theorem hash22_arith (i s d : Nat) : Tp22.buffer_hash i s d = i % 16 * 65536 + s % 256 * 256 + d % 256 := by
+  simp only [Tp22.buffer_hash, and_255, and_15, shl_8, shl_16]
+  have o1 : s % 256 * 256 ||| d % 256 = s % 256 * 256 + d % 256 := by
+    have := mul_or (s % 256) (d % 256) 8 (by simp only [Nat.reducePow]; omega); simpa using this
+  have o2 : i % 16 * 65536 ||| (s % 256 * 256 + d % 256) = i % 16 * 65536 + (s % 256 * 256 + d % 256) := by
+    have := mul_or (i % 16) (s % 256 * 256 + d % 256) 16 (by simp only [Nat.reducePow]; omega); simpa using this
+  rw [Nat.or_assoc, o1, o2]; omega
+
+/-- CONCURRENT SESSIONS NEVER SHARE A BUFFER: the key under which a J1939-22 transport session is stored and looked up
+    (regenerated from the source's `_buffer_hash`) is injective on all 16 session numbers × 256 sources × 256 destinations:
+    the 8 RTS/CTS and 4 BAM sessions a stack may run at once, and the sessions of different peers, are kept apart -/
+theorem c02_session_key_injective (i s d i' s' d' : Nat) (hi : i < 16) (hs : s < 256) (hd : d < 256)
+    (hi' : i' < 16) (hs' : s' < 256) (hd' : d' < 256)
+    (h : Tp22.buffer_hash i s d = Tp22.buffer_hash i' s' d') : i = i' ∧ s = s' ∧ d = d' := by
+  rw [hash22_arith, hash22_arith] at h
+  omega
+
+end SessionKeys
+
 end J1939.Props.C02
